@@ -259,7 +259,21 @@ func DecodeClaimsFromJSON(buf []byte) (IClaims, error) {
 	}
 
 	if found == nil {
-		return nil, errors.New(`could not match profile`)
+		// A profile field that is present but did not match any
+		// registered profile is an error; in the absence of a profile
+		// field, Profile1 (PSA_IOT_PROFILE_1) is assumed.
+		for _, entry := range profilesRegister {
+			if profileTag, ok := decoded[entry.JSONTag]; ok && profileTag != nil {
+				return nil, errors.New(`could not match profile`)
+			}
+		}
+
+		entry, ok := profilesRegister[""]
+		if !ok {
+			return nil, errors.New(`could not match profile`)
+		}
+
+		found = entry.Profile
 	}
 
 	claims := found.GetClaims()
